@@ -186,7 +186,8 @@ func (s UpdateSpec) Classify(md protoreflect.MessageDescriptor) (UpdateVerdict, 
 	}
 	if s.UpdateMask != nil && len(s.UpdateMask.Paths) > 0 && s.Writable != nil {
 		broader := false
-		for _, p := range s.UpdateMask.Paths {
+		// a mask denotes a set of fields: a path covered by another (parent) path adds nothing
+		for _, p := range NormalizePaths(s.UpdateMask.Paths) {
 			if Covers(s.Writable.Paths, p) {
 				continue
 			}
